@@ -138,6 +138,7 @@ def run(ctx):
 
     _duck_typed_kernels(ctx)
     _value_preserving_fill(ctx)
+    _scalar_promotion(ctx, W)
 
     # ---- (1) who may call
     n_sites = 0
@@ -376,3 +377,63 @@ def _value_preserving_fill(ctx):
                            "; ".join(f"line {ln}: {fn}(template, value) casts the value to the template's dtype" for ln, fn in bad[:3]),
                            {"calls": bad}, f"{relp}:{st.lineno}")
     ctx.anchor("_wrap_result implementations", n, 10)
+
+
+def _scalar_promotion(ctx, W):
+    """NumPy backend: a scalar result component becomes a float64 array whatever the dtypes of the other components"""
+    ctx.rule("C03.scalar-promotion",
+             "_toarrays turns every non-array member x of a result tuple into numpy.array([x], numpy.float64) - the dtype is the constant float64, not one "
+             "derived from the other members - and passes arrays through unchanged; a tuple comes back as a tuple, a single value as a single array")
+    from ..peval import External, Undecided
+
+    env = W.module_env("vector.backends.numpy")
+    fn = env.get("_toarrays")
+    if not isinstance(fn, FuncVal):
+        raise AnalysisError("anchor vector.backends.numpy._toarrays missing")
+    cases = {
+        "(int64 array, scalar)": [Opaque("a_int", "ndarray"), Opaque("s", "real")],
+        "(scalar, float32 array, scalar)": [Opaque("s1", "real"), Opaque("a_f32", "ndarray"), Opaque("s2", "real")],
+        "(scalar, scalar)": [Opaque("s1", "real"), Opaque("s2", "real")],
+    }
+    for label, members in cases.items():
+        made = []
+
+        def m_array(I, args, kwargs, made=made):
+            made.append((args, kwargs))
+            return Opaque(("numpy.array", len(made) - 1), "ndarray")
+
+        oa = {m.tag: {"dtype": Opaque("dtype_of_" + str(m.tag), "notnone"), "shape": (3,)} for m in members if m.kind == "ndarray"}
+        I = Interp(W, ext_models={"numpy.array": m_array, "numpy.asarray": m_array, "numpy.full": m_array}, opaque_attrs=oa)
+        msg = ""
+        try:
+            r = I.call_function(fn, [tuple(members)], {})
+        except PyRaise as e:
+            msg = f"raises {e.exc}"
+            r = None
+        except Undecided as e:
+            raise AnalysisError(f"_toarrays could not be interpreted on {label}: {e}") from None
+        if not msg:
+            if not isinstance(r, tuple) or len(r) != len(members):
+                msg = f"returns {r!r}"
+            else:
+                k = 0
+                for m, out in zip(members, r):
+                    if m.kind == "ndarray":
+                        if out is not m:
+                            msg = f"array member {m!r} is not passed through ({out!r})"
+                            break
+                        continue
+                    if k >= len(made):
+                        msg = f"scalar member {m!r} is not converted with numpy.array"
+                        break
+                    args, kwargs = made[k]
+                    k += 1
+                    dt = kwargs.get("dtype", args[1] if len(args) > 1 else None)
+                    val = args[0] if args else None
+                    if not (isinstance(val, list) and len(val) == 1 and val[0] is m):
+                        msg = f"scalar member {m!r} becomes numpy.array({val!r}, ...)"
+                        break
+                    if not (isinstance(dt, External) and dt.name == "numpy.float64"):
+                        msg = f"scalar member {m!r} is given dtype {dt!r}: a value such as 2.5 is truncated when the other members are integer-typed; expected the constant numpy.float64"
+                        break
+        ctx.ob("C03.scalar-promotion", f"_toarrays{label}", not msg, msg, None, "src/vector/backends/numpy.py")
